@@ -21,6 +21,8 @@ pub struct CaseSet {
     /// the boolean checkers of the Run module evaluated on each case
     pub checkers: Vec<String>,
     pub extra_imports: Vec<String>,
+    /// definitions emitted before `cases` in every shard (e.g. the items of a module)
+    pub preludes: Vec<String>,
 }
 
 impl CaseSet {
@@ -41,6 +43,10 @@ impl CaseSet {
                 s.push_str(i);
             }
             s.push_str(&format!(" {}.\n", self.run_module));
+            for p in &self.preludes {
+                s.push_str(p);
+                s.push('\n');
+            }
             s.push_str(&format!("Definition cases : list {}.case := [\n", self.run_module));
             for (i, c) in self.cases[off..end].iter().enumerate() {
                 if i > 0 {
